@@ -35,6 +35,10 @@ def parseOp (tok : String) : Option Op :=
     let nm ← if named = "e" then some none else ((named.drop 1).toString.toNat?).map some
     let its ← if items = "_" then some [] else (items.splitOn ",").mapM parseItem
     pure (.stmt (← sev.toNat?) tg its nm)
+  | ["ov", sa, ta, ia, sb, tb, ib] => do
+    let tg := fun (t : String) => if t = "~" then some none else (unhex t).map some
+    let its := fun (i : String) => if i = "_" then some [] else (i.splitOn ",").mapM parseItem
+    pure (.overlap (← sa.toNat?) (← tg ta) (← its ia) (← sb.toNat?) (← tg tb) (← its ib))
   | _ => none
 
 /-- a null or empty tag leaves the record's tag empty -/
@@ -80,11 +84,12 @@ def judge (f : List String) (ans : String) : String :=
     match parseCase f with
     | some (cfg, ops) =>
       let want := traceStr (Props.C05.specRun cfg (fun _ => 0) ops)
-      let nst := (ops.filter fun o => match o with | .stmt .. => true | _ => false).length
+      let nst := (ops.filter fun o => match o with | .stmt .. => true | .overlap .. => true | _ => false).length
       let feat := "\tmin" ++ toString cfg.minSev ++ " stmts" ++ toString (min nst 6) ++
         (if want = "-" then " silent" else " emits") ++
         (if ops.any (fun o => match o with | .stmt _ _ its _ => its.any (fun i => match i with | .lazy .. => true | _ => false) | _ => false) then " has-lazy" else "") ++
         (if ops.any (fun o => match o with | .stmt _ _ _ (some _) => true | _ => false) then " named-form" else "") ++
+        (if ops.any (fun o => match o with | .overlap .. => true | _ => false) then " overlapping-streams" else "") ++
         (if nst ≥ 1 then " nt" else "")
       if ans = want then "ok" ++ feat else "bad:" ++ ans ++ " want " ++ want ++ feat
     | none => "bad-op"
